@@ -182,3 +182,8 @@ c15!(c15_breaks_n3_b2, 8, breaks_to_new_combo::<3, 2>());
 c15!(c15_sample_point_apply, 4, sample_point_apply());
 // @verif property=C15 tier=quick timeout=600 bounds="get_precision_adjusted_beat_len over 8 slider velocities x 4 beat lengths x 4 modes (alphabet: symbolic full-width division does not finish)"
 c15!(c15_precision_adjusted_beat_len, 4, precision_adjusted_beat_len());
+
+// (`HitObjects::from(state)` end to end was tried on small CONCRETE object lists with symbolic
+// break / sample-point times -- 3 circles out of order + 1 break; 1 slider + 2 sample points: no
+// result in 30 min resp. out of memory at 24 GB (`sort_by` and the per-object loop). The
+// post-processing as a whole stays outside C15; its kernels are decided above.)
